@@ -966,7 +966,13 @@ class CircuitTemplate(AbstractBaseTemplate):
                 for n in list(net.keys()):
                     net_tmp = net[n]
                     if isinstance(net_tmp, CircuitTemplate):
-                        for n2 in net_tmp.get_nodes(node_identifier[1:], var_identifier):
+                        try:
+                            sub_nodes = net_tmp.get_nodes(node_identifier[1:], var_identifier)
+                        except KeyError:
+                            # the wildcard also selects branches that do not contain the named sub-circuit / node
+                            # (e.g. the `input_lvl_*` circuits that hold extrinsic inputs): they contribute nothing
+                            sub_nodes = []
+                        for n2 in sub_nodes:
                             node_key = "/".join((n, n2))
                             if node_key not in nodes:
                                 nodes.append(node_key)
